@@ -1,19 +1,23 @@
 #!/bin/bash
 # Re-runs, for every kept seeded change, the check of the property it breaks against a scratch
-# worktree with the change applied; prints one line per seed. Usage: tools/seeds_regress.sh [out]
+# worktree with the change applied; prints one line per seed. Usage: tools/seeds_regress.sh [out] [k/m]
+# (k/m: only the seeds whose index is k modulo m, to run m instances side by side)
 cd "$(dirname "$0")/.."
 OUT=${1:-/tmp/scratch/seeds_regress.txt}
+PART=${2:-0/1}; K=${PART%/*}; M=${PART#*/}; I=0
 mkdir -p /tmp/scratch; : > $OUT
 for d in seeded/*/; do
   id=$(basename $d); [ -f $d/patch.diff ] || continue
-  prop=$(python3 -c "import json;print(json.load(open('$d/meta.json'))['property'])")
+  I=$((I+1)); [ $((I % M)) -eq $K ] || continue
+  case " ${SKIP:-} " in *" $id "*) continue;; esac
+  prop=$(python3 -c "import json;m=json.load(open('$d/meta.json'));print(m.get('regress_check', m['property']))")
   tier=$(python3 -c "import json;print('thorough' if json.load(open('$d/meta.json')).get('tier','quick').startswith('thorough') else 'quick')")
   SCR=/tmp/scratch/rg_$id; rm -rf $SCR
   git -C /repo worktree add -q --detach $SCR HEAD
   if ! git -C $SCR apply $PWD/$d/patch.diff 2>/dev/null; then echo "$id $prop PATCH-DOES-NOT-APPLY" | tee -a $OUT; git -C /repo worktree remove --force $SCR; continue; fi
-  out=$(VERIF_REPO_DIR=$SCR VERIF_EVIDENCE_DIR=/tmp/scratch/rg_ev ./check $prop --tier $tier 2>&1); rc=$?
+  out=$(VERIF_REPO_DIR=$SCR VERIF_EVIDENCE_DIR=/tmp/scratch/rg_ev$K ./check $prop --tier $tier 2>&1); rc=$?
   echo "$id $prop $tier rc=$rc $(echo "$out" | grep -E 'counterexamples kept' | cut -c1-160)" | tee -a $OUT
   git -C /repo worktree remove --force $SCR
 done
-rm -rf /tmp/scratch/rg_ev
+rm -rf /tmp/scratch/rg_ev$K
 echo "caught: $(grep -c 'rc=1' $OUT) of $(wc -l < $OUT)" | tee -a $OUT
